@@ -25,6 +25,8 @@ def CanonLeaf : Leaf → J → Prop
   | .bool, .bool _ => True
   | .any, _ => True
   | .custom, _ => True
+  | .map, .obj _ => True
+  | .map, .null => True
   | _, _ => False
 
 mutual
